@@ -4,21 +4,29 @@ from .. import core, sysgen, reader, gen
 
 MODULES = ['DsdVerif.Props.C16']
 GEN_FILES = ['Symbols', 'Grammars']
-THEOREMS = ['Dsd.Symbols.no_unresolved_global']
+THEOREMS = ['Dsd.Symbols.no_unresolved_global', 'Dsd.C16.reader_never_faults', 'Dsd.C16.readLine_never_faults_fresh',
+            'Dsd.C16.typed_lineOK', 'Dsd.C16.resolveKernel_ok', 'Dsd.C16.resolveKernel_total']
 ASSUMPTIONS = [
     'static part: the global-name reference table of every function / method / lambda / comprehension / class body of the package is '
     'regenerated with symtable by translator/gen.py; a name bound anywhere at module level (incl. inside if/try, via import or import *) '
     'counts as defined; attribute look-ups and dynamically built names are out of scope',
     'dynamic part: which exception kinds read_pil raises is observed on the real reader over single-fault corruptions of generated valid '
-    'documents, random multi-fault documents and random text (exploration, not a theorem)',
+    'documents, random multi-fault documents and random text; the same texts are handed to an unconfigured reader (read_pil_line '
+    'after set_io_objects / clear_io_objects) and the module namespaces are inspected in every reader state (import, set, clear, '
+    'clear twice) for names that functions reference but that are no longer defined',
+    'reader_never_faults is about the model; its hypotheses (Typed, Name, Forest) describe what the grammar can produce and are '
+    'exercised by the correspondence stream, they are not derived from the grammar by a theorem',
 ]
 MANIFEST = {
     'text': 'Partial. Full (translator-based) for the static clause: no_unresolved_global is decided by the Lean kernel over the symbol '
             'table regenerated from the working tree on every run, so no function of the package can reference an undefined global '
             'name. Dynamic clauses: the Lean reader model (Model/Reader.lean) returns for every document either the dictionary, a '
             'declared error kind or an explicit `fault`; its outcome KIND is compared with the real reader on every single-fault '
-            'corruption (15 kinds) of generated valid documents and on multi-fault documents, and the theorems about it that are present '
-            '(reader_never_faults etc., see evidence) exclude faults for all grammar-shaped documents. On the real code: only parse '
+            'corruption (15 kinds) of generated valid documents and on multi-fault documents; reader_never_faults proves that reading '
+            'ANY document whose lines have the shapes the grammar produces (any length, names other than "" and "*", kernel patterns '
+            'within the recursion budget), with any ignore list and slot configuration, into a fresh world never ends in a fault '
+            '(world invariant WOK preserved by every request, by collect, by every readLine branch); C14.failed_read_restores covers '
+            'the state after a failed read. On the real code: only parse '
             'errors or declared errors escape, ignored reactions do not abort the read, a failed read leaves previously held objects '
             'valid singletons; faults are shrunk to minimal documents. When the symbol theorem breaks, the corpora are driven to the '
             'offending function to obtain a concrete NameError replay.',
@@ -50,9 +58,66 @@ def name_error_search(res, unresolved):
     return found
 
 
+def _global_refs(mod):
+    """(qualified function name, global name) for every LOAD_GLOBAL / LOAD_NAME of every code object defined in `mod`"""
+    import dis, types
+    out = []
+    def walk(code, qual):
+        for ins in dis.get_instructions(code):
+            if ins.opname in ('LOAD_GLOBAL', 'LOAD_NAME') and code.co_name != '<module>':
+                out.append((qual, ins.argval))
+        for c in code.co_consts:
+            if isinstance(c, types.CodeType):
+                walk(c, qual + '.' + c.co_name)
+    seen = set()
+    def visit(obj, qual):
+        if id(obj) in seen:
+            return
+        seen.add(id(obj))
+        if isinstance(obj, types.FunctionType) and obj.__module__ == mod.__name__:
+            walk(obj.__code__, qual)
+        elif isinstance(obj, (classmethod, staticmethod)):
+            visit(obj.__func__, qual)
+        elif isinstance(obj, property):
+            for f in (obj.fget, obj.fset, obj.fdel):
+                if f is not None:
+                    visit(f, qual)
+        elif isinstance(obj, type) and obj.__module__ == mod.__name__:
+            for k, v in list(vars(obj).items()):
+                visit(v, qual + '.' + k)
+    for k, v in list(vars(mod).items()):
+        visit(v, mod.__name__ + '.' + k)
+    return out
+
+
+def globals_defined_in_every_reader_state(res):
+    """every global a function of the package references is defined in the module namespace at import time, after
+    set_io_objects() and after clear_io_objects() (a name that is *deleted* at run time is as fatal as a misspelt one)"""
+    import builtins, importlib, pkgutil, dsdobjects
+    from dsdobjects import objectio
+    mods = [dsdobjects]
+    for m in pkgutil.walk_packages(dsdobjects.__path__, 'dsdobjects.'):
+        try:
+            mods.append(importlib.import_module(m.name))
+        except Exception:
+            pass
+    refs = [(m, q, n) for m in mods for (q, n) in _global_refs(m)]
+    res.dist['global_references_checked_dynamically'] = len(refs)
+    def missing(state):
+        for m, q, n in refs:
+            if n not in vars(m) and not hasattr(builtins, n):
+                res.violation('global-undefined:%s:%s' % (q, n), {'call': 'state of the reader: %s' % state, 'function': q, 'name': n},
+                              '%s is not defined in %s (%s)' % (n, m.__name__, state), 'every referenced global name is defined')
+    missing('after import')
+    objectio.set_io_objects(); missing('after set_io_objects()')
+    objectio.clear_io_objects(); missing('after set_io_objects(); clear_io_objects()')
+    objectio.clear_io_objects(); missing('after a second clear_io_objects()')
+
+
 def run(res, proof):
     rng = random.Random(res.seed * 32452843 + 16)
     quick = res.tier == 'quick'
+    globals_defined_in_every_reader_state(res)
     # ---- static part: names the regenerated model says are unresolved
     try:
         out = core.run_driver(['symbols.unresolved'])
@@ -78,6 +143,10 @@ def run(res, proof):
             extra = [l for l in txt.split('\n') if l and l not in valid.split('\n')]
             multi += '\n'.join(extra) + '\n'
         jobs.append({'text': multi, 'mode': 'outcome'}); labels.append(('multi-fault', multi))
+        if rng.random() < 0.25:
+            # the same texts read by an unconfigured reader (after set_io_objects / clear_io_objects)
+            jobs.append({'text': valid, 'mode': 'outcome', 'config': 'cleared'}); labels.append(('valid-cleared-reader', valid))
+            jobs.append({'text': multi, 'mode': 'outcome', 'config': 'cleared'}); labels.append(('multi-fault-cleared-reader', multi))
     for _ in range(100 if quick else 3000):
         n = rng.randint(0, 40)
         txt = ''.join(rng.choice('ab=:()+*[]@ \n#length sequence state reaction->./5') for _ in range(n))
@@ -101,7 +170,7 @@ def run(res, proof):
     # ---- correspondence of the exception KIND with the Lean reader model on every corrupted document
     lines, impl = [], []
     for (lab, txt), r, job in zip(labels, results, jobs):
-        if job.get('pre') or lab == 'random-text':
+        if job.get('pre') or lab == 'random-text' or job.get('config'):
             continue
         lines.append('reset'); impl.append('ok')
         lines.append('read.doc\t%s\t\t0 0 0 0 0\t0' % sysgen.PG.hx(txt)); impl.append(r.get('line', '?'))
@@ -125,16 +194,17 @@ def run(res, proof):
         if (kind, lab) in tried:
             continue
         tried.add((kind, lab))
-        small = shrink_lines(txt, 'err ' + kind)
+        cfg = 'cleared' if lab.endswith('cleared-reader') else None
+        small = shrink_lines(txt, 'err ' + kind, config=cfg)
         last = [l for l in small.split('\n') if l.strip()]
         shape = ' '.join(last[-1].split()[:1]) if last else 'empty'
         if last and shape not in sysgen.PG.KEYWORDS:
             shape = 'kernel'
-        key = 'interpreter-fault:%s:%s' % (kind, shape)
+        key = 'interpreter-fault:%s:%s%s' % (kind, shape, ':cleared-reader' if cfg else '')
         if key in seen:
             continue
         seen.add(key)
-        res.violation(key, {'text': small}, 'err ' + kind, 'the result dictionary, a parse error or a declared error')
+        res.violation(key, {'text': small, 'config': cfg}, 'err ' + kind, 'the result dictionary, a parse error or a declared error')
     gc.unfreeze()
     for (lab, txt) in labels[::max(1, len(labels) // 8)]:
         res.sample({'label': lab, 'text': txt})
@@ -145,7 +215,7 @@ def run(res, proof):
                 'held; distinct by text' % nsys)
 
 
-def shrink_lines(txt, outcome, budget=60):
+def shrink_lines(txt, outcome, budget=60, config=None):
     """delta debugging over lines (chunks first), bounded number of reads"""
     lines = [l for l in txt.split('\n')]
     n = 2
@@ -155,7 +225,7 @@ def shrink_lines(txt, outcome, budget=60):
         for start in range(0, len(lines), chunk):
             cand = lines[:start] + lines[start + chunk:]
             budget -= 1
-            if cand and reader.read_job({'text': '\n'.join(cand), 'mode': 'outcome'})['outcome'] == outcome:
+            if cand and reader.read_job({'text': '\n'.join(cand), 'mode': 'outcome', 'config': config})['outcome'] == outcome:
                 lines = cand
                 n = max(n - 1, 2)
                 reduced = True
@@ -171,8 +241,15 @@ def shrink_lines(txt, outcome, budget=60):
 
 def replay(body, repo):
     txt = body['input'].get('text')
+    if txt is None and 'function' in body['input']:
+        class R:                      # re-run the dynamic name check and print what is undefined now
+            dist = {}
+            def violation(self, key, inp, obs, req):
+                print('observed :', obs)
+        globals_defined_in_every_reader_state(R())
+        print('required :', body.get('required')); return 1
     if txt is None:
         print(body['input']); return 1
-    r = reader.read_job({'text': txt, 'mode': 'outcome'})
+    r = reader.read_job({'text': txt, 'mode': 'outcome', 'config': body['input'].get('config')})
     print('text     :', repr(txt)); print('observed :', r['outcome']); print('required :', body.get('required'))
     return 1
